@@ -329,6 +329,52 @@ class TableOrders(object):
         return judge(context() + items, False, 'C03|table-order|cols=%d' % case['ncols'])
 
 
+class ForwardChains(object):
+    name = 'chains-of-forward-references'
+    describe = ('an object of type Lvl, Lvl ::= Pct (0..50), Pct a TEXTUAL-CONVENTION, a further type over Lvl: all 24 declaration orders; '
+                'a table and a table whose row AUGMENTS the first one\'s row: every order of the two tables and two rows with the '
+                'SEQUENCE types and columns before or after them (thorough: every order of all eight declarations) - one entry per '
+                'declared symbol whatever the order')
+
+    def blocks(self, tier):
+        return [{'set': 'types'}, {'set': 'augments'}]
+
+    def items(self, which):
+        if which == 'types':
+            return [dict(make('ot', 0)[0], syntax=('ref', 'Lvl')),
+                    {'k': 'type', 'name': 'Lvl', 'syntax': ('ref', 'Pct', ('range', [(0, 50)]))},
+                    {'k': 'tc', 'name': 'Pct', 'display': 'd', 'status': 'current', 'descr': 'Per cent.', 'ref': None,
+                     'syntax': ('simple', 'Integer32', ('range', [(0, 100)]))},
+                    {'k': 'type', 'name': 'Top', 'syntax': ('ref', 'Lvl')}]
+        base, ext = make('tbl', 0), make('tbl', 1)
+        ext[1] = dict(ext[1], augments='sym0Entry')
+        ext[1].pop('index', None)
+        # tables and rows first (positions 0-3), then SEQUENCE types and columns
+        return [base[0], base[1], ext[0], ext[1], base[2], ext[2], base[3], base[4], ext[3], ext[4]]
+
+    def cases(self, block, tier):
+        if block['set'] == 'types':
+            for perm in itertools.permutations(range(4)):
+                yield {'set': 'types', 'perm': list(perm)}
+            return
+        rest = list(range(4, 10))
+        if tier == 'thorough':
+            for perm in itertools.permutations(range(4)):
+                for rperm in itertools.permutations(range(4, 8)):
+                    yield {'set': 'augments', 'perm': list(perm) + list(rperm) + [8, 9]}
+                    yield {'set': 'augments', 'perm': list(rperm) + [8, 9] + list(perm)}
+            return
+        for perm in itertools.permutations(range(4)):
+            yield {'set': 'augments', 'perm': list(perm) + rest}
+            yield {'set': 'augments', 'perm': rest + list(perm)}
+            yield {'set': 'augments', 'perm': rest[::-1] + list(perm)}
+
+    def run_case(self, case):
+        items = self.items(case['set'])
+        items = [items[i] for i in case['perm']]
+        return judge(context() + items, False, 'C03|forward-chains|%s' % case['set'])
+
+
 class SharedNames(object):
     name = 'names-shared-with-another-module'
     describe = ('OTHER-MIB declares a table (table, row, SEQUENCE type, two columns); TEST-MIB, compiled by the same call before or '
@@ -420,4 +466,4 @@ def _option_histories():
         prefix = 'C03'
     return OptionHistories()
 
-FAMILIES = [Sequences(), Names(), Parts(), ReservedKeys(), TableOrders(), SharedNames(), MetTwice(), _option_histories()]
+FAMILIES = [Sequences(), Names(), Parts(), ReservedKeys(), TableOrders(), ForwardChains(), SharedNames(), MetTwice(), _option_histories()]
